@@ -55,7 +55,7 @@ def dft_instances():
                 call=f"crate::c11_dft::dft_linear::<{rs}, {a_s}, 1, {L(rs+1)}, {L(a_s)}, {L(1)}, 7>({sel}, {scale}, 0)",
                 unwind=L(4) + 6, params={"op": "add_scaled_assign", "res_size": rs, "a_size": a_s, "scale": scale, "cols_sel": sel},
                 symbolic=["all operand words", "all prior output content"], functions=[f"{F}::vec_znx_dft_add_scaled_assign"], timeout=600,
-                core=((rs, a_s) == (3, 2) and scale in (-1, 1))))
+                core=True))  # 2 s each; the (2,3,+2) point exposed a genuine defect that the former core subset missed
     for rs, a_s in ((2, 2), (3, 2), (2, 3), (1, 1)):
         for tmpa in (False, True):
             for sel in range(4):
